@@ -144,6 +144,9 @@ func (m *ErrorMessage) UnmarshalBinary(data []byte) error {
 	if length > uint64(len(data)-bytesRead) {
 		return fmt.Errorf("data too short for error message")
 	}
+	if length < uint64(len(data)-bytesRead) {
+		return fmt.Errorf("%d trailing bytes after error message", uint64(len(data)-bytesRead)-length)
+	}
 
 	m.Error = string(data[bytesRead : bytesRead+int(length)])
 
@@ -157,6 +160,9 @@ func (m *Features) MarshalBinary() ([]byte, error) {
 func (m *Features) UnmarshalBinary(data []byte) error {
 	if len(data) < sizeOfUint32 {
 		return io.ErrUnexpectedEOF
+	}
+	if len(data) > sizeOfUint32 {
+		return fmt.Errorf("%d trailing bytes after features", len(data)-sizeOfUint32)
 	}
 	*m = Features(unmarshalUint32LE(data))
 	return nil
@@ -283,6 +289,10 @@ func (m *PeerInfo) UnmarshalBinary(data []byte) error {
 		return err
 	}
 
+	if buffer.Len() != 0 {
+		return fmt.Errorf("%d trailing bytes after peer info", buffer.Len())
+	}
+
 	m.AppName = string(nameBuffer)
 	m.AppVersion = appVersion
 	m.JamVersion = jamVersion
@@ -292,14 +302,25 @@ func (m *PeerInfo) UnmarshalBinary(data []byte) error {
 	return nil
 }
 
+// decodeExact decodes one value that must span the whole message payload.
+func decodeExact(data []byte, v interface{}) error {
+	n, err := types.NewDecoder().DecodeWithConsumed(data, v)
+	if err != nil {
+		return err
+	}
+	if n != len(data) {
+		return fmt.Errorf("%d trailing bytes after the message", len(data)-n)
+	}
+	return nil
+}
+
 func (m *ImportBlock) MarshalBinary() ([]byte, error) {
 	encoder := types.NewEncoder()
 	return encoder.Encode((*types.Block)(m))
 }
 
 func (m *ImportBlock) UnmarshalBinary(data []byte) error {
-	decoder := types.NewDecoder()
-	return decoder.Decode(data, (*types.Block)(m))
+	return decodeExact(data, (*types.Block)(m))
 }
 
 func (m *SetState) Encode(e *types.Encoder) error {
@@ -340,8 +361,7 @@ func (m *SetState) MarshalBinary() ([]byte, error) {
 }
 
 func (m *SetState) UnmarshalBinary(data []byte) error {
-	decoder := types.NewDecoder()
-	return decoder.Decode(data, m)
+	return decodeExact(data, m)
 }
 
 func (m *GetState) MarshalBinary() ([]byte, error) {
@@ -350,8 +370,7 @@ func (m *GetState) MarshalBinary() ([]byte, error) {
 }
 
 func (m *GetState) UnmarshalBinary(data []byte) error {
-	decoder := types.NewDecoder()
-	return decoder.Decode(data, (*types.HeaderHash)(m))
+	return decodeExact(data, (*types.HeaderHash)(m))
 }
 
 func (m *State) MarshalBinary() ([]byte, error) {
@@ -360,8 +379,7 @@ func (m *State) MarshalBinary() ([]byte, error) {
 }
 
 func (m *State) UnmarshalBinary(data []byte) error {
-	decoder := types.NewDecoder()
-	return decoder.Decode(data, (*types.StateKeyVals)(m))
+	return decodeExact(data, (*types.StateKeyVals)(m))
 }
 
 func (m *StateRoot) MarshalBinary() ([]byte, error) {
@@ -370,8 +388,7 @@ func (m *StateRoot) MarshalBinary() ([]byte, error) {
 }
 
 func (m *StateRoot) UnmarshalBinary(data []byte) error {
-	decoder := types.NewDecoder()
-	return decoder.Decode(data, (*types.StateRoot)(m))
+	return decodeExact(data, (*types.StateRoot)(m))
 }
 
 func (m *Message) ReadFrom(reader io.Reader) (int64, error) {
